@@ -85,6 +85,14 @@ func patterns() []string {
 	return append(pats, "/", "/a", "/a/", "/{p0}", "/*{c0}")
 }
 
+var structuredSet = func() map[string]bool {
+	m := map[string]bool{}
+	for _, h := range structured {
+		m[h] = true
+	}
+	return m
+}()
+
 // eval checks the host-related obligations for one request.
 func eval(e *rsx.Env, rq rsx.Req) (bool, bool, string, string) {
 	o := e.Observe(rq)
@@ -93,6 +101,13 @@ func eval(e *rsx.Env, rq rsx.Req) (bool, bool, string, string) {
 	}
 	hdr := func() string {
 		return fmt.Sprintf("set %s request %s (host %q)\n    observed: %s", rsx.SetString(e.Set), rq, rq.Host, o)
+	}
+	// the transaction views (a read-only Txn, a write Txn holding the same routes uncommitted) must resolve the
+	// Host exactly like the router; checked on the structured hosts (ports, trailing dots, literals, braces)
+	if e.Views != nil && structuredSet[rq.Host] {
+		if d := e.Views.Disagree(rq, &o); d != "" {
+			return false, true, "txn-disagree", d + ", the router answers differently: " + hdr()
+		}
 	}
 	stripped := ref.StripHost(rq.Host)
 	m := e.Ref[rq.Method]
@@ -225,6 +240,11 @@ func runWith(c *mc.Ctx, r *mc.Result, boundName string, always []string) {
 		}
 		r.Count("sets", 1)
 		r.States++
+		if err := e.WithViews(); err != nil {
+			r.Violate("hosts", "txn-disagree", err.Error()+" set "+rsx.SetString(set), Case{Set: set})
+			return
+		}
+		defer e.Done()
 		for _, h := range hosts {
 			for _, p := range paths {
 				rq := rsx.Req{Method: "GET", Host: h, Path: p}
@@ -500,6 +520,10 @@ func replay(c *mc.Ctx, raw json.RawMessage) string {
 	if err != nil {
 		return ""
 	}
+	if err := e.WithViews(); err != nil {
+		return err.Error()
+	}
+	defer e.Done()
 	_, _, _, msg := eval(e, cs.Req)
 	return msg
 }
